@@ -61,6 +61,12 @@ fn gen_cases(ctx: &Ctx) -> Vec<Case> {
     v
 }
 
+/// Shape of the i-th record of a batch: rich -> minimal -> random -> minimal -> rich -> random ...
+/// so that whole-file passes see "rich line followed by minimal line" and the reverse.
+fn hint_of(i: usize) -> gff::Hint {
+    [gff::Hint::Rich, gff::Hint::Minimal, gff::Hint::Random, gff::Hint::Random, gff::Hint::Minimal, gff::Hint::Rich, gff::Hint::Random, gff::Hint::Random][i % 8]
+}
+
 fn run_case(c: &Case) -> CaseOut {
     let mut rng = Rng::new(c.pseed, 0x18, 0);
     let mut mon = Mon::default();
@@ -76,34 +82,62 @@ fn run_case(c: &Case) -> CaseOut {
                 gtf::check_record(n, "corpus".into(), &mut rng, &mut mon, &mut file);
             }
             gtf::run_file(&mut rng, &mut mon, &file);
+            let (mut f3, mut f4, mut f5, mut f6) = (Vec::new(), Vec::new(), Vec::new(), Vec::new());
+            for d in bed::corpus(3) {
+                bed::run_bed3(&mut rng, &mut mon, d, &mut f3);
+            }
+            for d in bed::corpus(4) {
+                bed::run_bed4(&mut rng, &mut mon, d, &mut f4);
+            }
+            for d in bed::corpus(5) {
+                bed::run_bed5(&mut rng, &mut mon, d, &mut f5);
+            }
+            for d in bed::corpus(6) {
+                bed::run_bed6(&mut rng, &mut mon, d, &mut f6);
+            }
+            bed::run_bed3_file(&mut rng, &mut mon, &f3);
+            bed::run_bed4_file(&mut rng, &mut mon, &f4);
+            bed::run_bed5_file(&mut rng, &mut mon, &f5);
+            bed::run_bed6_file(&mut rng, &mut mon, &f6);
         }
         "gff3" => {
             let mut file = Vec::new();
-            for _ in 0..c.lines {
+            for i in 0..c.lines {
                 if rng.chance(1, 8) {
                     gff::run_directive(&mut rng, &mut mon, &mut file);
                 } else {
-                    gff::run_record(&mut rng, &mut mon, &mut file);
+                    gff::run_record(&mut rng, hint_of(i), &mut mon, &mut file);
                 }
             }
             gff::run_file(&mut rng, &mut mon, &file);
         }
         "gtf" => {
             let mut file = Vec::new();
-            for _ in 0..c.lines {
-                gtf::run_record(&mut rng, &mut mon, &mut file);
+            for i in 0..c.lines {
+                gtf::run_record(&mut rng, hint_of(i), &mut mon, &mut file);
             }
             gtf::run_file(&mut rng, &mut mon, &file);
         }
         _ => {
+            // four files (one per N); within each the shapes cycle rich / minimal / random
+            let (mut f3, mut f4, mut f5, mut f6) = (Vec::new(), Vec::new(), Vec::new(), Vec::new());
+            let mut k = [0usize; 4];
             for _ in 0..c.lines {
-                match rng.below(4) {
-                    0 => bed::run_bed3(&mut rng, &mut mon),
-                    1 => bed::run_bed4(&mut rng, &mut mon),
-                    2 => bed::run_bed5(&mut rng, &mut mon),
-                    _ => bed::run_bed6(&mut rng, &mut mon),
+                let which = rng.below(4) as usize;
+                let hint = hint_of(k[which]);
+                k[which] += 1;
+                let d = bed::gen_desc(&mut rng, 3 + which, hint);
+                match which {
+                    0 => bed::run_bed3(&mut rng, &mut mon, d, &mut f3),
+                    1 => bed::run_bed4(&mut rng, &mut mon, d, &mut f4),
+                    2 => bed::run_bed5(&mut rng, &mut mon, d, &mut f5),
+                    _ => bed::run_bed6(&mut rng, &mut mon, d, &mut f6),
                 }
             }
+            bed::run_bed3_file(&mut rng, &mut mon, &f3);
+            bed::run_bed4_file(&mut rng, &mut mon, &f4);
+            bed::run_bed5_file(&mut rng, &mut mon, &f5);
+            bed::run_bed6_file(&mut rng, &mut mon, &f6);
         }
     }
     let mut o = CaseOut::new();
